@@ -206,6 +206,9 @@ DiagLeak(toks, obs) ==
     LET j == CHOOSE j \in LeakIdx(toks, obs) : TRUE  t == toks[j] IN
     "NoLeak:" \o t.k \o ":" \o t.l \o "-" \o t.r \o (IF t.k = "dom" /\ ~cf.sysdom THEN ":nodomain" ELSE "")
         \o (IF CurSp.width THEN ":width" ELSE "")
+        \* the cleaner was built without an explicit fqdn (as every production caller builds it): how it got to know
+        \* the system's own name, and whether an inventory label was configured next to it
+        \o (IF cf.nofqdn THEN (IF cf.dname THEN ":own-name-from-the-os:display-name-set" ELSE ":own-name-from-the-os") ELSE "")
 DiagLine ==
     LET toks == Ev.toks  obs == Ev.obs IN
     IF ~(si >= 1 /\ Len(toks) = Len(obs) /\ Ev.src \in DOMAIN content[si].lines) THEN "line.shape"
